@@ -30,7 +30,9 @@ func (l *filterRuleList) addRule(fr *filterRule) {
 func (l *filterRuleList) matches(name string) bool {
 	for _, fr := range l.Filters {
 		if fr.matches(name) {
-			return true
+			// The first matching rule decides: include rules keep the
+			// entry, exclude rules leave it out.
+			return fr.flag&filtruleInclude == 0
 		}
 	}
 	return false
